@@ -193,11 +193,17 @@ C10Clause(st) ==
 (* must be the instance.  The clause name says whether the probe re-checks *)
 (* an earlier class (bases_and_siblings_unchanged).                        *)
 (***************************************************************************)
+(* st.bykw # "": the dispatched argument was given by keyword under that    *)
+(* name.  Judged (as the same call) only when every definition the class   *)
+(* dispatches over calls its parameter that - the parameter names in       *)
+(* effect are those of the definitions in effect, not of overridden ones.  *)
 C17Clause(st) ==
-  IF st.obs.slf # "ok" THEN "self_threaded"
+  IF st.bykw # "" /\ ~(\A d \in EffDefs(Case.world.hosts, st.host).defs : d.pn = st.bykw) THEN ""
+  ELSE IF st.obs.slf # "ok" THEN "self_threaded"
   ELSE LET c == PlainClause(st) IN
        IF c = "" THEN ""
-       ELSE (IF st.after > st.host THEN "bases_and_siblings_unchanged." ELSE "class_overload_set.") \o c
+       ELSE (IF st.bykw # "" THEN "keyword_call." ELSE "")
+            \o (IF st.after > st.host THEN "bases_and_siblings_unchanged." ELSE "class_overload_set.") \o c
 
 StepClause(st) ==
   LET c1 == IF "C01" \in Props THEN C01Clause(st) ELSE ""
